@@ -11,7 +11,8 @@ calls `final_status`, and what it returns or that it raises.
 
 Second thread.  `start`/`stop` only replace `next_task` under `_lock`; `cycle` looks at `next_task`
 at four places (R1 `if self.next_task and …`, R2 the argument of `_cleanup(self.next_task)`, R3
-`if self.next_task:`, R4 the swap under the lock) and the transition hook of the mixin reads it once
+`if self.next_task:`, R4 the swap under the lock — no slot before R4: it is reached only when R3 saw a task, and
+replacing that task between R3 and the lock is the same as replacing it before R3) and the transition hook of the mixin reads it once
 more (H).  `cycle` is therefore cut into small steps at exactly these reads: before each of them there
 is a *slot* at which an arbitrary list of requests of other threads is applied (`absorb`; the oracle
 `env` numbers the slots consecutively).  A request arriving anywhere between two reads is equivalent to
@@ -59,7 +60,9 @@ deriving Repr, Inhabited
 
 /-- the observable history -/
 inductive Ev where
+  | reqStart                                  -- `start_machine` entered (mixin)
   | post (r : Req)                            -- a request replaced `next_task`
+  | take                                      -- `cycle` took `next_task` (the swap under the lock)
   | cycleBegin
   | cycleEnd (active pending : Bool)          -- `cycle` returned; `is_active`, `next_task is not None`
   | call (s : Sid) (init : Bool)              -- state function `s` called, value of `init` it sees
@@ -136,7 +139,7 @@ def startMachineB (σ : SM) (r : Req) : SM :=
   σ.log (.status σ.status)
 
 def startMachine (cfg : Cfg) (σ : SM) (s : Sid) (cl : Option Cid) (kw : Attrs) (ovr : Option Status) : SM :=
-  startMachineB (startMachineA cfg σ s ovr) (.start s cl kw ovr)
+  startMachineB (startMachineA cfg (σ.log .reqStart) s ovr) (.start s cl kw ovr)
 
 /-- `stop_machine(stopped_status)` -/
 def stopMachine (cfg : Cfg) (σ : SM) (stopped : Status) : SM :=
@@ -273,7 +276,7 @@ def takeTask (cfg : Cfg) (P : Prog) (σ : SM) : SM :=
   match σ.nextTask with
   | none => σ                                     -- not reachable
   | some t =>
-    let σ := { σ with nextTask := none, reason := none }
+    let σ := { σ with nextTask := none, reason := none }.log .take
     match t with
     | .stop _ => σ
     | .start s cl kw _ =>
@@ -283,8 +286,8 @@ def takeTask (cfg : Cfg) (P : Prog) (σ : SM) : SM :=
 
 def pickup (cfg : Cfg) (P : Prog) (σ : SM) : SM :=
   let σ := absorb cfg P σ                         -- slot C (before R3)
-  if σ.nextTask.isSome then takeTask cfg P (absorb cfg P σ)   -- slot D (between R3 and R4)
-  else σ
+  if σ.nextTask.isSome then takeTask cfg P σ      -- R4 happens under the lock; a request between R3 and the lock
+  else σ                                          -- replaces a task by a task: same as arriving in slot C
 
 /-- `self._new_state(None)` after the inner loop -/
 def finishRun (cfg : Cfg) (P : Prog) (σ : SM) : SM := newState cfg P σ none
